@@ -585,3 +585,127 @@ func optionalPartsIndependent(w *World, r *Report, prop string, ctxs map[string]
 	}
 	r.note("%s: pairs of independent optional parts examined: %d", rule, n)
 }
+
+// */inline-object-keeps-its-own-packet: the packet of an inline object is the one built from its own body.
+//
+// An object field either names a declared packet (`Leg firstLeg,` - resolved by name after parsing) or declares its members in
+// place (`Leg { u8 a, }` - the visitor builds a packet for it and stores it in the attribute together with IsIner). The name of an
+// inline object is free: it may coincide with the name of a declared packet. A resolution step that assigns RefPacket from the table
+// of declared packets without excluding inline objects replaces the inline object's own packet by the declared packet of that name;
+// every target then encodes the members of the wrong packet, without a diagnostic. Decided: a store into
+// ObjectFieldAttribute.RefPacket of a value that is not a packet built in the same routine lies behind the "not inline" edge of a
+// test of the same attribute's IsIner, or behind the "is nil" edge of a test of the same attribute's RefPacket (inline attributes are
+// constructed with their packet - checked on every literal that sets IsIner), or writes an attribute constructed there with IsIner
+// left false.
+func inlineObjectKeepsItsPacket(w *World, r *Report, prop string) {
+	rule := prop + "/inline-object-keeps-its-own-packet"
+	// premise of the nil-guard justification: every literal that sets IsIner to true also sets RefPacket
+	inlineHavePacket := true
+	for _, fn := range w.srcFuncs {
+		if !w.isSubjectFunc(fn) {
+			continue
+		}
+		forEachInstr(fn, func(_ *ssa.BasicBlock, ins ssa.Instruction) {
+			al, ok := ins.(*ssa.Alloc)
+			if !ok {
+				return
+			}
+			pt, ok := al.Type().(*types.Pointer)
+			if !ok || modelTypeName(pt.Elem()) != "ObjectFieldAttribute" || al.Referrers() == nil {
+				return
+			}
+			setsInline, setsRef := false, false
+			for _, ref := range *al.Referrers() {
+				fa, ok := ref.(*ssa.FieldAddr)
+				if !ok || fa.Referrers() == nil {
+					continue
+				}
+				_, f, _, _ := fieldOf(fa)
+				for _, r2 := range *fa.Referrers() {
+					st, ok := r2.(*ssa.Store)
+					if !ok || st.Addr != ssa.Value(fa) {
+						continue
+					}
+					if f == "IsIner" {
+						if k, ok := st.Val.(*ssa.Const); !ok || k.Value == nil || k.Value.String() != "false" {
+							setsInline = true
+						}
+					}
+					if f == "RefPacket" {
+						if k, ok := st.Val.(*ssa.Const); !ok || k.Value != nil {
+							setsRef = true
+						}
+					}
+				}
+			}
+			if setsInline && !setsRef {
+				inlineHavePacket = false
+			}
+		})
+	}
+	n := 0
+	for _, fn := range w.srcFuncs {
+		if !w.isSubjectFunc(fn) || fn.Blocks == nil {
+			continue
+		}
+		cnt := 0
+		forEachInstr(fn, func(b *ssa.BasicBlock, ins ssa.Instruction) {
+			st, ok := ins.(*ssa.Store)
+			if !ok {
+				return
+			}
+			fa, ok := st.Addr.(*ssa.FieldAddr)
+			if !ok {
+				return
+			}
+			if tn, f, _, _ := fieldOf(fa); tn != "ObjectFieldAttribute" || f != "RefPacket" {
+				return
+			}
+			v := stripIdentity(st.Val)
+			if _, isAlloc := v.(*ssa.Alloc); isAlloc {
+				return // the packet built here
+			}
+			if k, ok := v.(*ssa.Const); ok && k.Value == nil {
+				return
+			}
+			attr := stripIdentity(fa.X)
+			if al, ok := attr.(*ssa.Alloc); ok && al.Parent() == fn {
+				return // an attribute under construction
+			}
+			n++
+			cnt++
+			key := fmt.Sprintf("%s: RefPacket assignment #%d leaves inline objects alone", fnKey(fn), cnt)
+			if w.underNotIsIner(b, attr) {
+				r.pass(rule, key, w.instrPos(ins), "behind the not-inline edge")
+				return
+			}
+			// behind the nil edge of a test of the same attribute's RefPacket
+			if inlineHavePacket {
+				for _, tb := range fn.Blocks {
+					cond := branchCond(tb)
+					if cond == nil {
+						continue
+					}
+					x, nn, ok := nilTest(cond)
+					if !ok {
+						continue
+					}
+					ld, ok := stripIdentity(x).(*ssa.UnOp)
+					if !ok || ld.Op != token.MUL {
+						continue
+					}
+					fa2, ok := ld.X.(*ssa.FieldAddr)
+					if !ok || fa2.Field != fa.Field || stripIdentity(fa2.X) != attr {
+						continue
+					}
+					if edgeDominates(tb, 1-nn, b) {
+						r.pass(rule, key, w.instrPos(ins), "behind the edge on which the attribute has no packet yet (inline objects are constructed with theirs)")
+						return
+					}
+				}
+			}
+			r.fail(rule, key, w.instrPos(ins), "a packet found by name is stored into an object attribute that may belong to an inline object: an inline object named like a declared packet loses the packet built from its own body, and every target encodes the declared packet's members in its place")
+		})
+	}
+	r.note("%s: assignments examined: %d", rule, n)
+}
